@@ -1,7 +1,7 @@
 (** C01 -- property file.  Contains only: the full statement, the proved statement (closed by [exact]),
     the instantiation obligations on the facts regenerated from /repo, a non-vacuity example,
     and Print Assumptions. *)
-From SF Require Import Model.Chain Model.ChainProof Model.ChainOrder Model.ChainExt.
+From SF Require Import Model.Chain Model.ChainProof Model.ChainOrder Model.ChainExt Model.ChainExtProof Model.ChainCheckX.
 From Coq Require Import Permutation Sorting.Sorted.
 From Gen Require Import C01Facts.
 Open Scope Z_scope.
@@ -60,6 +60,33 @@ Theorem C01_dropna_emulation : forall cs r how thresh chk,
   = dropna_keep cs how thresh chk r.
 Proof. exact dropna_emulation_ok. Qed.
 Print Assumptions C01_dropna_emulation.
+
+(** fillna / replace write a CASE projection: their decorator must claim at least SELECT (instantiation
+    obligation on the generated decorator table; it fails for Operation.FROM, the defect repaired in /repo) *)
+Lemma gen_fillna_kind : deco_of decorator_table "fillna" = Some SELECT /\ deco_of decorator_table "replace" = Some SELECT.
+Proof. split; vm_compute; reflexivity. Qed.
+Lemma gen_composite_ok : composite_ok gen_cfg SELECT = true.
+Proof. vm_compute. reflexivity. Qed.
+
+Theorem C01_fillna : forall d ics input kvs,
+  cols input = ics -> wf_frame input -> InvR gen_cfg d ics ->
+  exists d', step_x gen_cfg (deco_of decorator_table) d (XFillna kvs) = Some d' /\
+             eval_df d' input = spec_x (XFillna kvs) (eval_df d input) /\ InvR gen_cfg d' ics.
+Proof.
+  intros. exact (fillna_correct gen_cfg gen_cfg_ok gen_limit_ok (deco_of decorator_table) SELECT d ics input kvs
+                   (proj1 gen_fillna_kind) gen_composite_ok H H0 H1).
+Qed.
+Print Assumptions C01_fillna.
+
+Theorem C01_replace : forall d ics input tgt ps,
+  cols input = ics -> wf_frame input -> InvR gen_cfg d ics ->
+  exists d', step_x gen_cfg (deco_of decorator_table) d (XReplace tgt ps) = Some d' /\
+             eval_df d' input = spec_x (XReplace tgt ps) (eval_df d input) /\ InvR gen_cfg d' ics.
+Proof.
+  intros. exact (replace_correct gen_cfg gen_cfg_ok gen_limit_ok (deco_of decorator_table) SELECT d ics input tgt ps
+                   (proj2 gen_fillna_kind) gen_composite_ok H H0 H1).
+Qed.
+Print Assumptions C01_replace.
 
 (** the domain is inhabited by a program that exercises every wrap decision *)
 Example C01_domain_nonempty :
